@@ -26,7 +26,7 @@ Record dcase := {
   dpd : bool;                      (* positive definite: cholesky was called *)
   dtyC : dty; dtyP : dty; dtyL : dty; dtyU : dty;      (* classes of the implementation's results *)
   dC : QM; dP : QM; dL : QM; dU : QM;                  (* their dense forms (floats as exact rationals) *)
-  dtol2 : Qc }.
+  dtol2 : Qc; dabs2 : Qc }.
 Definition todense (n : nat) (o : qop) : arr (R:=qi) := matmat o (mkarr n n eye).
 Definition okshape (n : nat) (o : qop) : bool := wf o && Nat.eqb (fst (shape o)) n && Nat.eqb (snd (shape o)) n.
 Definition dcheck (c : dcase) : bool :=
@@ -36,13 +36,13 @@ Definition dcheck (c : dcase) : bool :=
   (if dpd c then
      let r := chol (chol_tab (dchol c)) sq e in
      dty_eqb (dtype r) (dtyC c) && dty_eqb (dtype r) (mirror (DtTri true) e) && okshape n (dto_op r)
-     && (if dnumc c then close_mn (dtol2 c) (todense n (dto_op r)) n n (dC c) else true)
+     && (if dnumc c then close_mn (dtol2 c) (dabs2 c) (todense n (dto_op r)) n n (dC c) else true)
    else true) &&
   (let '(P, L, U) := plu (lu_tab (dlu c)) sq (dflag c) e in
    dty_eqb (dtype P) (dtyP c) && dty_eqb (dtype L) (dtyL c) && dty_eqb (dtype U) (dtyU c)
    && dty_eqb (dtype P) (mirrorP e) && dty_eqb (dtype L) (mirrorL (dflag c) e) && dty_eqb (dtype U) (mirrorU (dflag c) e)
    && okshape n (dto_op P) && okshape n (dto_op L) && okshape n (dto_op U)
    && (if dnump c then
-         close_mn (dtol2 c) (todense n (dto_op P)) n n (dP c) && close_mn (dtol2 c) (todense n (dto_op L)) n n (dL c)
-         && close_mn (dtol2 c) (todense n (dto_op U)) n n (dU c)
+         close_mn (dtol2 c) (dabs2 c) (todense n (dto_op P)) n n (dP c) && close_mn (dtol2 c) (dabs2 c) (todense n (dto_op L)) n n (dL c)
+         && close_mn (dtol2 c) (dabs2 c) (todense n (dto_op U)) n n (dU c)
        else true)).
